@@ -2,10 +2,11 @@
 # tools/seed_run.sh <patch.diff> <prop> [tier] [extra check args]
 # Runs a check against a seeded change. By default the change is applied to /repo and undone straight
 # afterwards; with SEED_SCRATCH=1 it is applied to a scratch worktree under /tmp instead (VERIF_REPO),
-# which leaves /repo untouched while other runs use it.
+# which leaves /repo untouched while other runs use it (the default; SEED_SCRATCH=0 applies to /repo itself).
+# Scratch runs write their evidence to .work/evidence-scratch, never to evidence/.
 set -u
 P=$1; PROP=$2; TIER=${3:-quick}; shift; shift; shift 2>/dev/null
-if [ "${SEED_SCRATCH:-0}" = 1 ]; then
+if [ "${SEED_SCRATCH:-1}" = 1 ]; then
   WT=/tmp/seedrun-$$
   git -C /repo worktree add -q --detach $WT HEAD || exit 2
   git -C $WT apply "$P" || { echo "patch does not apply"; git -C /repo worktree remove --force $WT; exit 2; }
